@@ -88,6 +88,19 @@ HELPER_KINDS = """
   end subroutine helper
 """
 
+# "modvars" variant (C04): the enclosing module declares variables whose
+# names are the ones PSyclone's transformations generate for temporaries
+# (with the suffix a clash would add), and the routine uses them - so a name
+# chosen without looking at the enclosing scope captures a module variable.
+MODVAR_DECLS = """  real(kind=kind(1.0d0)) :: res_max_1, res_min_1, res_abs_1, tmp_abs_1
+  real(kind=kind(1.0d0)) :: res_sign_1, tmp_sign_1, tmp_max_1, tmp_min_1
+  integer :: idx_1, i_out_var_1, j_out_var_1, i_el_inner_1
+"""
+MODVAR_STMTS = ["x = res_max_1 + 1.0_wp", "res_abs_1 = y", "t = tmp_abs_1",
+                "res_min_1 = x * 2.0_wp", "y = res_sign_1 + tmp_sign_1",
+                "k = idx_1 + 1", "tmp_max_1 = t", "x = tmp_min_1",
+                "k = i_out_var_1 + j_out_var_1", "i_el_inner_1 = k"]
+
 HELPER = """
   subroutine helper(arr, n, x)
     integer, intent(in) :: n
@@ -174,6 +187,20 @@ def gen_program(rng):
                           if rng.random() < 0.4 else []})
     prog = {"stmts": stmts, "helper": pick(rng, HELPER_BODIES),
             "decl_variant": rng.randrange(3)}
+    if rng.random() < 0.3:
+        prog["modvars"] = True
+        for _ in range(rng.randint(3, 5)):
+            stmts.insert(rng.randrange(len(stmts) + 1),
+                         line(pick(rng, MODVAR_STMTS)))
+        # two more loops that use the same intrinsic, so that one
+        # transformation applied to both creates equally named temporaries
+        # in two inner scopes
+        tmpl = pick(rng, ["b(i) = max(a(i), c(i))", "a(i) = abs(b(i))",
+                          "c(i) = min(a(i), b(i), x)",
+                          "b(i) = sign(a(i), c(i))"])
+        for head in ("do i = 1, n", "do i = 2, n - 1"):
+            stmts.insert(rng.randrange(len(stmts) + 1),
+                         {"k": "do", "head": head, "body": [line(tmpl)]})
     if rng.random() < 0.35:
         prog["kinds"] = True
         prog["kinded_constructor"] = rng.random() < 0.5
@@ -209,8 +236,10 @@ def _emit(stmts, ind, out):
 def program_text(prog):
     kinds = bool(prog.get("kinds"))
     out = KINDS_MODULE.strip("\n").split("\n") if kinds else []
-    out += ["module m_mod", "  implicit none", "contains",
-            "  subroutine sub(n, a, b, p, q)"]
+    out += ["module m_mod", "  implicit none"]
+    if prog.get("modvars"):
+        out += MODVAR_DECLS.strip("\n").split("\n")
+    out += ["contains", "  subroutine sub(n, a, b, p, q)"]
     out += [ln for ln in DECLS.strip("\n").split("\n")]
     if kinds:
         # constants go straight after wp, before the executable part
